@@ -351,6 +351,11 @@ class EAlias(Engine):
                     parents.append(e.serial)
                     parents.extend(e.parents[:6])
 
+        if bsrc is not None and route in ('split_piece', 'cut_piece', 'gen_split', 'gen_cut', 'gen_findall', 'gen_iter', 'bool_list', 'join', 'mul', 'rmul', 'unpack', 'readlist') \
+                and kernel.is_bits(bsrc.obj) and len(bsrc.obj) > 8192:
+            # tens of thousands of pieces of a source that earlier self-referential growth made huge: a workload bomb, not a library matter
+            return set(), f'derive:{route}:skipped-huge-source', {'st': 'skip'}
+
         def go():
             if route == 'ctor' and bsrc:
                 P(bsrc); made.append(C(bsrc.obj))
@@ -659,7 +664,7 @@ class EAlias(Engine):
             self._after_mutation(tgt)
             return {tgt.serial} | tgt.coupled, f'mutate:Array.{aop}', {'st': st}
         op = str(ev.get('op'))
-        if len(x) > 2048 and op in ('replace', 'imul', 'append', 'prepend', 'insert', 'iadd', 'overwrite', 'setslice', 'prop_bits'):
+        if (len(x) > 2048 or (ev.get('self_operand') and len(x) > 256)) and op in ('replace', 'imul', 'append', 'prepend', 'insert', 'iadd', 'overwrite', 'setslice', 'prop_bits'):
             # repeated self-referential growth (x.replace('0b1', x) ...) is exponential: a workload bomb, not a library matter
             return set(), 'mutate:skipped-growth-of-large-target', {'st': 'skip'}
 
